@@ -444,7 +444,7 @@ public:
             return pos;
         for (const char* cur = ptr_ + pos;; --cur)
         {
-            if (std::strncmp(cur, s.ptr_, s.size_) == 0)
+            if (std::char_traits<char>::compare(cur, s.ptr_, s.size_) == 0)
                 return cur - ptr_;
             if (cur == ptr_)
                 return npos;
